@@ -491,4 +491,181 @@ measures the two-byte string with strlen -/
 def printCOrig (v : BitVec 32) (width precision : Int) (ops : Ops) : Option (List Char × Int) :=
   printS [Char.ofNat (v.toNat % 256), NUL] width precision { ops with chr := false }
 
+/-! ### round 3: the `n` conversion and the C `int` range
+
+`printf` above answers `unsupported` for `%n` and computes width, precision and
+`pc` in unbounded `Int`.  `printfN` is the same engine (every conversion except
+`n` goes through `directive`, unchanged) with
+  * `case 'n':` transcribed: the count so far is stored through the pointer
+    argument, converted to the type the length modifier names;
+  * every place where the C code computes a value of type `int` that the
+    unbounded model could carry out of the range of `int` guarded: `atoi` of a
+    literal width/precision beyond INT_MAX (undefined, 7.22.1), `width = -width`
+    for INT_MIN, `pc` growing beyond INT_MAX.  The result is then `intovf`
+    ("undefined behaviour in C: the model says nothing about the code"). -/
+
+def INT_MAX : Int := 2147483647
+
+/-- `*va_arg(args, T *) = (T)pc;` -/
+structure NStore where
+  addr : BitVec 64   -- the pointer argument
+  size : Nat         -- sizeof(T)
+  pc : Int           -- the value of `pc` that is converted and stored
+  emitted : Nat      -- (ghost) number of characters handed to the callback so far
+  deriving DecidableEq, Repr
+
+/-- the object representation that is stored: `(T)pc` as an unsigned number of `size` bytes -/
+def NStore.val (s : NStore) : Nat := (s.pc % ((2 : Int) ^ (8 * s.size))).toNat
+
+/-- `sizeof(T)` of `case 'n':` — `signed char`, `short`, `long`, `long long`,
+`intmax_t`, `size_t`, `ptrdiff_t`, else (`int`; also for `L`) -/
+def nSize : Len → Nat
+  | .hh => 1
+  | .h => 2
+  | .l | .ll | .j | .z | .t => 8
+  | .none | .bigL => 4
+
+inductive OutcomeN
+  | done (out : List Char) (pc : Int) (stores : List NStore)
+  | fault | badarg | unsupported | diverged
+  | intovf   -- a computation in `int` left the range of `int` (undefined in C)
+  deriving DecidableEq, Repr
+
+inductive StepN
+  | ok (emit : List Char) (pc : Int) (rest : List Char) (args : List Arg) (store : Option (BitVec 64 × Nat))
+  | fault | badarg | unsupported | intovf
+  deriving DecidableEq, Repr
+
+/-- flags, width, precision, length: the first half of `directive`; result:
+width, precision, position of `format`, arguments left, `ops` -/
+def parseOpts (begin : List Char) (args : List Arg) : Option (Int × Int × List Char × List Arg × Ops) :=
+  let (s, ops) := flagsLoop begin.tail {}
+  match getWidth s args ops with
+  | none => none
+  | some (width, s, args, ops) =>
+    match getPrec s args ops with
+    | none => none
+    | some (precision, s, args, ops) =>
+      let (s, ops) := getLen s ops
+      some (width, precision, s, args, ops)
+
+/-- the value `width` receives before `if (width < 0)`: `va_arg(args, int)` or `atoi(format)` -/
+def rawWidth (s : List Char) (args : List Arg) : Option Int :=
+  if hd s = '*' then (vaInt args).map fun (v, _) => v.toInt else some (atoi s)
+
+/-- the value `atoi(format)` yields for a literal precision (`none`: the precision is a `*`) -/
+def rawPrec (s : List Char) : Option Int :=
+  if hd s = '.' then (if hd s.tail = '*' then none else some (atoi s.tail)) else some (atoi s)
+
+/-- does this directive make the C code compute outside `int`?  `atoi` beyond
+the range of `int`; `width = -width` for INT_MIN -/
+def intGuard (begin : List Char) (args : List Arg) : Bool :=
+  let (s, ops) := flagsLoop begin.tail {}
+  (match rawWidth s args with
+   | some w => decide (w > INT_MAX ∨ w ≤ -INT_MAX - 1)
+   | none => false) ||
+  (match getWidth s args ops with
+   | some (_, s, _, _) =>
+     (match rawPrec s with
+      | some p => decide (p > INT_MAX ∨ p < -INT_MAX - 1)
+      | none => false)
+   | none => false)
+
+/-- the body of the `for` loop for `*format == '%'`, `pc` = the count so far -/
+def directiveN (begin : List Char) (args : List Arg) : StepN :=
+  if intGuard begin args then .intovf else
+  match parseOpts begin args with
+  | none => .badarg
+  | some (_, _, s, args', ops) =>
+    if hd s = 'n' then
+      -- case 'n': if (ops & OPS_LEN_MIN) *va_arg(args, signed char *) = (signed char)pc; else if … else *va_arg(args, int *) = pc;
+      match args' with
+      | .ptr a :: as => .ok [] 0 s.tail as (some (a, nSize ops.len))
+      | _ => .badarg
+    else
+      match directive begin args with
+      | .ok emit dpc rest as => .ok emit dpc rest as none
+      | .fault => .fault
+      | .badarg => .badarg
+      | .unsupported => .unsupported
+
+/-- `for (begin = format; *format; begin = ++format) { … }` with `pc` an `int` -/
+def loopN : Nat → List Char → List Arg → List Char → Int → List NStore → OutcomeN
+  | _, [], _, out, pc, st => .done out pc st
+  | 0, _ :: _, _, _, _, _ => .diverged
+  | fuel + 1, c :: cs, args, out, pc, st =>
+    if c = NUL then .done out pc st
+    else if c ≠ '%' then
+      -- single_print: ++pc;
+      if pc + 1 > INT_MAX then .intovf else loopN fuel cs args (out ++ [c]) (pc + 1) st
+    else
+      match directiveN (c :: cs) args with
+      | .ok emit dpc rest args store =>
+        -- pc += print_i(…) / print_s(…) / (int)(format - begin + 1)
+        if pc + dpc > INT_MAX then .intovf else
+        loopN fuel rest args (out ++ emit) (pc + dpc)
+          (match store with
+           | some (a, sz) => st ++ [{ addr := a, size := sz, pc := pc, emitted := out.length }]
+           | none => st)
+      | .fault => .fault
+      | .badarg => .badarg
+      | .unsupported => .unsupported
+      | .intovf => .intovf
+
+/-- `__printf` with `%n` and with `int` arithmetic -/
+def printfN (format : List Char) (args : List Arg) : OutcomeN :=
+  loopN (format.length + 1) format args [] 0 []
+
+/-- every value of type `int` that print_i computes on the way — the operands and
+results of its additions and subtractions and `pc` after each `pc +=` — in the
+order of the C text (same prefix and digits as `printI`); for the range theorem
+`print_i_ints_in_range` -/
+def printIInts (u : BitVec 64) (isSigned : Bool) (width minLen : Int) (ops : Ops) (base : Nat) : List Int :=
+  let neg := isSigned && u.msb
+  let u := if neg then -u else u
+  let pfx : List Char :=
+    if neg then ['-']
+    else if isSigned && ops.sign then ['+']
+    else if isSigned && ops.space then [' ']
+    else if base = 8 && ops.spec && (u ≠ 0 || (minLen = 0 && ops.prec)) then ['0']
+    else if base = 16 && ops.spec && (u ≠ 0 || ops.ptr) then (if ops.upper then ['0', 'X'] else ['0', 'x'])
+    else []
+  let prefixLen : Int := pfx.length
+  let letterBase : Nat := if ops.upper then 65 else 97
+  let digits? : Option (List Char) :=
+    if u ≠ 0 || minLen ≠ 0 || !ops.prec then digitLoop base letterBase (PRINT_I_BUFF_SZ - 1) u.toNat []
+    else some []
+  match digits? with
+  | none => []
+  | some digits =>
+    let len : Int := digits.length
+    -- (len < min_len ? min_len + (base == 8 ? 0 : prefix_len) : … ? width : 0)
+    let t1 : Int :=
+      if len < minLen then minLen + (if base = 8 then 0 else prefixLen)
+      else if ops.zero && !(ops.left || ops.prec) then width else 0
+    -- … - len - prefix_len;  MAX(zero_count, 0)
+    let zc0 := t1 - len - prefixLen
+    let zeroCount := max zc0 0
+    -- width - len - prefix_len - zero_count;  MAX(space_count, 0)
+    let sc0 := width - len - prefixLen - zeroCount
+    let spaceCount := max sc0 0
+    let pc1 : Int := if !ops.left then 0 + spaceCount else 0
+    [prefixLen, len, t1, t1 - len, zc0, zeroCount, width - len, width - len - prefixLen, sc0, spaceCount,
+     pc1, pc1 + prefixLen, pc1 + prefixLen + zeroCount, pc1 + prefixLen + zeroCount + len,
+     pc1 + prefixLen + zeroCount + len + (if !ops.left then 0 else spaceCount)]
+
+/-- no directive met on the way makes the C code leave the range of `int` in
+`atoi` or in `width = -width` (follows the passes of `loop`) -/
+def guardFree : Nat → List Char → List Arg → Bool
+  | _, [], _ => true
+  | 0, _ :: _, _ => true
+  | fuel + 1, c :: cs, args =>
+    if c = NUL then true
+    else if c ≠ '%' then guardFree fuel cs args
+    else
+      !intGuard (c :: cs) args &&
+      (match directive (c :: cs) args with
+       | .ok _ _ rest args => guardFree fuel rest args
+       | _ => true)
+
 end Igris.C06
